@@ -571,6 +571,10 @@ func (r *collection) addService(service any, lifetime Lifetime, opts ...AddOptio
 		}
 	}
 
+	// A call that yields several descriptors (result object fields, multiple returns,
+	// several As aliases) registers all of them or none
+	var pending []*Descriptor
+
 	// Handle result objects (Out structs)
 	// For result objects, we only register each field as a separate service
 	// They all share the same constructor and will be created together
@@ -600,18 +604,11 @@ func (r *collection) addService(service any, lifetime Lifetime, opts ...AddOptio
 				paramFields:     descriptor.paramFields,
 			}
 
-			// Register the field descriptor
-			if err := r.registerDescriptor(fieldDescriptor); err != nil {
-				return &RegistrationError{
-					ServiceType: field.Type,
-					Operation:   "register result object field",
-					Cause:       err,
-				}
-			}
+			pending = append(pending, fieldDescriptor)
 		}
 
 		// Don't register the result object type itself
-		return nil
+		return r.registerAll(pending, "register result object field")
 	}
 
 	// Handle multiple return types (not Out structs)
@@ -651,16 +648,9 @@ func (r *collection) addService(service any, lifetime Lifetime, opts ...AddOptio
 					typeDescriptor.Key = nil
 				}
 
-				// Register each type descriptor
-				if err := r.registerDescriptor(typeDescriptor); err != nil {
-					return &RegistrationError{
-						ServiceType: ret.Type,
-						Operation:   "register multi-return type",
-						Cause:       err,
-					}
-				}
+				pending = append(pending, typeDescriptor)
 			}
-			return nil
+			return r.registerAll(pending, "register multi-return type")
 		}
 	}
 
@@ -699,29 +689,57 @@ func (r *collection) addService(service any, lifetime Lifetime, opts ...AddOptio
 				paramFields:      descriptor.paramFields,
 			}
 
-			// Register the interface descriptor
-			if err := r.registerDescriptor(interfaceDescriptor); err != nil {
-				return &RegistrationError{
-					ServiceType: interfaceType,
-					Operation:   "register as interface",
-					Cause:       err,
-				}
-			}
+			pending = append(pending, interfaceDescriptor)
 		}
 
 		// If As is specified, we only register under interface types, not the concrete type
-		return nil
+		return r.registerAll(pending, "register as interface")
 	}
 
 	// Register the descriptor normally
 	return r.registerDescriptor(descriptor)
 }
 
-// registerDescriptor registers a descriptor in the appropriate collections based on its type.
-// Regular services are registered by type and key,
-// and grouped services are registered in their respective groups.
-func (r *collection) registerDescriptor(descriptor *Descriptor) error {
-	// Reserved types cannot be registered under any form (As, result object field, multi-return)
+// registerAll registers the descriptors produced by one Add call atomically: every
+// descriptor is checked first (against the collection and against the others of the same
+// call) and only then are they inserted, so a rejected call leaves the collection untouched.
+func (r *collection) registerAll(descriptors []*Descriptor, operation string) error {
+	seen := make(map[TypeKey]struct{}, len(descriptors))
+	for _, descriptor := range descriptors {
+		err := r.checkDescriptor(descriptor)
+		if err == nil && (descriptor.Key != nil || descriptor.Group == "") {
+			key := TypeKey{Type: descriptor.Type, Key: descriptor.Key}
+			if _, dup := seen[key]; dup {
+				err = &AlreadyRegisteredError{ServiceType: descriptor.Type}
+			}
+			seen[key] = struct{}{}
+		}
+
+		if err != nil {
+			return &RegistrationError{
+				ServiceType: descriptor.Type,
+				Operation:   operation,
+				Cause:       err,
+			}
+		}
+	}
+
+	for _, descriptor := range descriptors {
+		if err := r.registerDescriptor(descriptor); err != nil {
+			return &RegistrationError{
+				ServiceType: descriptor.Type,
+				Operation:   operation,
+				Cause:       err,
+			}
+		}
+	}
+
+	return nil
+}
+
+// checkDescriptor reports why a descriptor cannot be registered, without registering it.
+// Reserved types cannot be registered under any form (As, result object field, multi-return).
+func (r *collection) checkDescriptor(descriptor *Descriptor) error {
 	if _, isReserved := reservedTypes[descriptor.Type]; isReserved {
 		return &ValidationError{
 			ServiceType: descriptor.Type,
@@ -729,10 +747,8 @@ func (r *collection) registerDescriptor(descriptor *Descriptor) error {
 		}
 	}
 
-	// Register based on type of service
 	if descriptor.Key != nil || descriptor.Group == "" {
-		key := TypeKey{Type: descriptor.Type, Key: descriptor.Key}
-		if _, exists := r.services[key]; exists {
+		if _, exists := r.services[TypeKey{Type: descriptor.Type, Key: descriptor.Key}]; exists {
 			if descriptor.Key == nil {
 				return &AlreadyRegisteredError{ServiceType: descriptor.Type}
 			}
@@ -742,7 +758,22 @@ func (r *collection) registerDescriptor(descriptor *Descriptor) error {
 				Cause:       &AlreadyRegisteredError{ServiceType: descriptor.Type},
 			}
 		}
+	}
 
+	return nil
+}
+
+// registerDescriptor registers a descriptor in the appropriate collections based on its type.
+// Regular services are registered by type and key,
+// and grouped services are registered in their respective groups.
+func (r *collection) registerDescriptor(descriptor *Descriptor) error {
+	if err := r.checkDescriptor(descriptor); err != nil {
+		return err
+	}
+
+	// Register based on type of service
+	if descriptor.Key != nil || descriptor.Group == "" {
+		key := TypeKey{Type: descriptor.Type, Key: descriptor.Key}
 		r.services[key] = descriptor
 	} else {
 		groupKey := GroupKey{Type: descriptor.Type, Group: descriptor.Group}
